@@ -138,6 +138,25 @@ def run(ctx):
                             deta = mp.asinh(c[2] / rho) - mp.asinh(cw[2] / mp.sqrt(cw[0] ** 2 + cw[1] ** 2))
                             if abs(abs(dphi) - mp.pi) > 1e-6:
                                 cmp(site + ":deltaR", v.deltaR(w), mp.sqrt(dphi ** 2 + deta ** 2), 1, inp)
+                        # across the phi = +-pi seam, both operands in THIS system and in every other one: the raw difference of
+                        # the two azimuths exceeds pi and must be wrapped (deltaphi, deltaR, deltaR2)
+                        u = rng.uniform
+                        c1 = (-u(0.3, 3), u(0.3, 3), u(-2, 2), 10.0)
+                        c2 = (-u(0.3, 3), -u(0.3, 3), u(-2, 2), 11.0)
+                        for n2 in ([names] + ([H.SYS[dim][(rep + 1) % len(H.SYS[dim])]] if deep or rep == 0 else [])):
+                            for (ca, cb_), (na, nb_) in (((c1, c2), (names, n2)), ((c2, c1), (n2, names))):
+                                pa, pb_ = H.from_cart(na, *ca[:max(dim, 2)] if dim < 4 else ca), H.from_cart(nb_, *cb_[:max(dim, 2)] if dim < 4 else cb_)
+                                va, vb_ = H.obj(vector, na, pa), H.obj(vector, nb_, pb_)
+                                ma, mb_ = mpc(na, pa), mpc(nb_, pb_)
+                                dp = mp.atan2(ma[1], ma[0]) - mp.atan2(mb_[1], mb_[0])
+                                dp = (dp + mp.pi) % (2 * mp.pi) - mp.pi
+                                inp2 = {"a": repr(va), "b": repr(vb_), "stratum": "phi_seam"}
+                                n += 1
+                                cmp(site + ":deltaphi:seam", va.deltaphi(vb_), dp, 1, inp2)
+                                if dim >= 3:
+                                    de = mp.asinh(ma[2] / mp.sqrt(ma[0] ** 2 + ma[1] ** 2)) - mp.asinh(mb_[2] / mp.sqrt(mb_[0] ** 2 + mb_[1] ** 2))
+                                    cmp(site + ":deltaR:seam", va.deltaR(vb_), mp.sqrt(dp ** 2 + de ** 2), 1, inp2)
+                                    cmp(site + ":deltaR2:seam", va.deltaR2(vb_), dp ** 2 + de ** 2, 1, inp2)
                         if dim == 4:
                             t = c[3]
                             tau2 = t * t - mag * mag
